@@ -316,6 +316,17 @@ def boundary_cfgs(th):
                     "costs": [3, 1, 1, 1]})
         out.append({"cls": "TwoLevel", "n": n, "period": n + 5, "bs": u,
                     "storage": "DISK", "traj": "maximum"})
+    # extreme cost ratios (kept to sizes the planners handle in < 1 s)
+    for v, rams in (([1, 1, 8000, 8000], (1, 2)), ([1e-4, 1, 2, 2], (1,)),
+                    ([1, 1e6, 2, 2], (1, 2)), ([1e6, 1, 2, 2], (1, 2)),
+                    ([1, 1, 20000, 100], (1,)), ([3, 1, 700, 0.5], (1, 2))):
+        for ram in rams:
+            for n in (3, 9, 20):
+                for c in ("Revolve", "DiskRevolve", "PeriodicDiskRevolve"):
+                    out.append({"cls": c, "n": n, "ram": ram,
+                                "costs": list(v)})
+                out.append({"cls": "HRevolve", "n": n, "ram": ram, "disk": 2,
+                            "costs": list(v)})
     # small / fractional forward cost regimes
     for v in ([0.5, 1, 0, 0], [0.25, 4, 0.5, 0.5], [0.125, 1, 1, 0],
               [0.5, 0.5, 0.25, 0.25]):
